@@ -30,11 +30,39 @@ Fixpoint jfrag (v : pv) {struct v} : bool :=
   | _ => false
   end.
 
-Definition json_ok (d : pv) : bool :=
+(* a delta without iterable opcodes *)
+Definition json_ok_plain (d : pv) : bool :=
   match d with
   | PDict kvs => jfrag d && negb (has_key ITERABLE_OPCODES kvs)
   | _ => false
   end.
+
+(* a delta with iterable opcodes: Opcode records (with JSON-representable value lists) under
+   path strings under the key _iterable_opcodes; everything else as above *)
+Definition is_ops_key (a : atom) : bool :=
+  match a with AStr k => pystr_eqb k ITERABLE_OPCODES | _ => false end.
+Definition op_ok (v : pv) : bool :=
+  match v with POpcode _ _ _ _ _ old new => jfrag old && jfrag new | _ => false end.
+Definition ops_list_ok (v : pv) : bool :=
+  match v with PList ops => forallb op_ok ops | _ => false end.
+Definition ops_ok (v : pv) : bool :=
+  match v with
+  | PDict paths =>
+      forallb (fun kv => str_key (fst kv)) paths && nodup_atoms (map fst paths) &&
+      negb (has_key OLD_TYPE paths && has_key NEW_TYPE paths) &&
+      forallb (fun kv => ops_list_ok (snd kv)) paths
+  | _ => false
+  end.
+Definition json_ok_ops (d : pv) : bool :=
+  match d with
+  | PDict kvs =>
+      forallb (fun kv => str_key (fst kv)) kvs && nodup_atoms (map fst kvs) &&
+      negb (has_key OLD_TYPE kvs && has_key NEW_TYPE kvs) &&
+      forallb (fun kv => if is_ops_key (fst kv) then ops_ok (snd kv) else jfrag (snd kv)) kvs
+  | _ => false
+  end.
+
+Definition json_ok (d : pv) : bool := json_ok_plain d || json_ok_ops d.
 
 (** * the local fixpoints as list functions *)
 
@@ -216,25 +244,217 @@ Proof.
 Qed.
 
 (* on the fragment, Delta(json_dumps(payload), deserializer=json_loads).diff is the payload *)
-Theorem json_roundtrip_partial : forall d, json_ok d = true -> json_roundtrip d = Some d.
+Lemma json_roundtrip_plain : forall d, json_ok_plain d = true -> json_roundtrip d = Some d.
 Proof.
-  intros d H. destruct d; try discriminate. cbn [json_ok] in H. apply andb_true_iff in H. destruct H as [Hj Hk].
+  intros d H. destruct d; try discriminate. cbn [json_ok_plain] in H. apply andb_true_iff in H. destruct H as [Hj Hk].
   apply negb_true_iff in Hk. destruct (jfrag_rt _ Hj) as [j [T O]].
   unfold json_roundtrip, json_load. rewrite T, O. unfold wrapper. rewrite (has_key_find _ _ Hk). reflexivity.
 Qed.
 
-(** * where the real code fails *)
+(** * deltas with iterable opcodes (Opcode records travel as arrays and are rebuilt positionally) *)
+
+(* what an Opcode record looks like after json.loads, before the wrapper *)
+Definition raw_op (v : pv) : pv :=
+  match v with
+  | POpcode tag i1 i2 j1 j2 old new =>
+      PList [PAtom (AStr tag); PAtom (AInt i1); PAtom (AInt i2); PAtom (AInt j1); PAtom (AInt j2); old; new]
+  | _ => v
+  end.
+Definition raw_ops (v : pv) : pv := match v with PList ops => PList (map raw_op ops) | _ => v end.
+Definition raw_paths (v : pv) : pv :=
+  match v with PDict paths => PDict (map (fun kv => (fst kv, raw_ops (snd kv))) paths) | _ => v end.
+Definition raw_entry (kv : atom * pv) : pv := if is_ops_key (fst kv) then raw_paths (snd kv) else snd kv.
+
+Lemma op_rt : forall v, op_ok v = true ->
+  (exists j, to_json v = Some j /\ of_json j = Some (raw_op v)) /\ opcode_of (raw_op v) = Some v.
+Proof.
+  intros v H. destruct v; try discriminate. cbn [op_ok] in H. apply andb_true_iff in H. destruct H as [H1 H2].
+  destruct (jfrag_rt _ H1) as [j1' [T1 O1]]. destruct (jfrag_rt _ H2) as [j2' [T2 O2]].
+  split; [|reflexivity].
+  exists (JArr [JStr tag; JInt i1; JInt i2; JInt j1; JInt j2; j1'; j2']).
+  split; [cbn [to_json]; rewrite T1, T2; reflexivity|].
+  rewrite of_json_arr_eq. cbn [map all_some of_json]. rewrite O1, O2. reflexivity.
+Qed.
+
+Lemma ops_list_rt : forall v, ops_list_ok v = true ->
+  (exists j, to_json v = Some j /\ of_json j = Some (raw_ops v)) /\
+  (exists ops, v = PList ops /\ all_some (map opcode_of (map raw_op ops)) = Some ops).
+Proof.
+  intros v H. destruct v; try discriminate. cbn [ops_list_ok] in H.
+  assert (E : (exists js, all_some (map to_json xs) = Some js /\ all_some (map of_json js) = Some (map raw_op xs)) /\
+              all_some (map opcode_of (map raw_op xs)) = Some xs).
+  { induction xs as [|x r IH]; [split; [exists []; split; reflexivity | reflexivity]|].
+    cbn [forallb] in H. apply andb_true_iff in H. destruct H as [Hx Hr].
+    destruct (op_rt x Hx) as [[j [T O]] Hop]. destruct (IH Hr) as [[js [Ts Os]] Hops].
+    split; [exists (j :: js); cbn [map all_some]; rewrite T, Ts, O, Os; split; reflexivity|].
+    cbn [map all_some]. rewrite Hop, Hops. reflexivity. }
+  destruct E as [[js [Ts Os]] Hops]. split.
+  - exists (JArr js). rewrite to_json_list_eq, Ts. split; [reflexivity|]. rewrite of_json_arr_eq, Os. reflexivity.
+  - exists xs. split; [reflexivity | exact Hops].
+Qed.
+
+(* dict entries in general: each value has a JSON form that parses to [g kv] *)
+Lemma kvs_rt_gen : forall (g : atom * pv -> pv) (kvs : list (atom * pv)),
+  forallb (fun kv => str_key (fst kv)) kvs = true ->
+  Forall (fun kv => exists j, to_json (snd kv) = Some j /\ of_json j = Some (g kv)) kvs ->
+  exists jk, all_some (map to_kv kvs) = Some jk /\
+    Forall2 (fun sj kv => fst kv = AStr (fst sj) /\ of_json (snd sj) = Some (snd kv)) jk
+            (map (fun kv => (fst kv, g kv)) kvs).
+Proof.
+  intros g kvs Hk HF. induction HF as [|[a x] r [j [Tj Oj]] Hr IH]; [exists []; split; [reflexivity | constructor]|].
+  cbn [forallb fst snd] in Hk. apply andb_true_iff in Hk. destruct Hk as [Ka Kr].
+  destruct (json_key_str a Ka) as [s [-> Ks]]. destruct (IH Kr) as [jk [Tk Fk]].
+  exists ((s, j) :: jk). cbn [map all_some]. unfold to_kv at 1. cbn [fst snd] in *. rewrite Ks, Tj, Tk.
+  split; [reflexivity|]. constructor; [split; [reflexivity | exact Oj] | exact Fk].
+Qed.
+
+Lemma has_key_map_g : forall k (g : atom * pv -> pv) kvs,
+  has_key k (map (fun kv => (fst kv, g kv)) kvs) = has_key k kvs.
+Proof. intros. unfold has_key. rewrite existsb_map. reflexivity. Qed.
+
+Lemma dict_rt_gen : forall (g : atom * pv -> pv) (kvs : list (atom * pv)),
+  forallb (fun kv => str_key (fst kv)) kvs = true -> nodup_atoms (map fst kvs) = true ->
+  has_key OLD_TYPE kvs && has_key NEW_TYPE kvs = false ->
+  Forall (fun kv => exists j, to_json (snd kv) = Some j /\ of_json j = Some (g kv)) kvs ->
+  exists j, to_json (PDict kvs) = Some j /\ of_json j = Some (PDict (map (fun kv => (fst kv, g kv)) kvs)).
+Proof.
+  intros g kvs Hk Hnd Hb HF. destruct (kvs_rt_gen g kvs Hk HF) as [jk [Tk Fk]].
+  exists (JObj jk). rewrite to_json_dict_eq, Tk. split; [reflexivity|].
+  rewrite of_json_obj_eq.
+  rewrite (ofkv_fresh jk _ [] Fk) by (cbn [map app]; rewrite map_map; cbn [fst]; exact Hnd).
+  cbn [app]. rewrite !has_key_map_g, Hb. reflexivity.
+Qed.
+
+Lemma paths_rt : forall v, ops_ok v = true ->
+  (exists j, to_json v = Some j /\ of_json j = Some (raw_paths v)) /\
+  (truthy (raw_paths v) = true -> rebuild_opcodes (raw_paths v) = Some v) /\
+  (truthy (raw_paths v) = false -> raw_paths v = v).
+Proof.
+  intros v H. destruct v; try discriminate. cbn [ops_ok] in H.
+  apply andb_true_iff in H. destruct H as [H Hops]. apply andb_true_iff in H. destruct H as [H Hb].
+  apply andb_true_iff in H. destruct H as [Hk Hnd]. apply negb_true_iff in Hb.
+  split; [|split].
+  - cbn [raw_paths]. apply (dict_rt_gen (fun kv => raw_ops (snd kv)) kvs Hk Hnd Hb).
+    clear - Hops. induction kvs as [|[a x] r IH]; [constructor|].
+    cbn [forallb snd] in Hops. apply andb_true_iff in Hops. destruct Hops as [Hx Hr].
+    constructor; [exact (proj1 (ops_list_rt x Hx)) | exact (IH Hr)].
+  - intros _. cbn [raw_paths rebuild_opcodes].
+    match goal with |- option_map PDict (?f ?l) = _ => assert (E : f l = Some kvs) end.
+    { clear - Hops. induction kvs as [|[a x] r IH]; [reflexivity|].
+      cbn [forallb snd] in Hops. apply andb_true_iff in Hops. destruct Hops as [Hx Hr].
+      destruct (proj2 (ops_list_rt x Hx)) as [ops [-> Hop]].
+      cbn [map fst snd raw_ops]. rewrite Hop. rewrite (IH Hr). reflexivity. }
+    rewrite E. reflexivity.
+  - cbn [raw_paths]. destruct kvs; [reflexivity | discriminate].
+Qed.
+
+Lemma find_ops_key : forall (g : atom * pv -> pv) kvs,
+  find (fun kv : atom * pv => match fst kv with AStr s => pystr_eqb s ITERABLE_OPCODES | _ => false end)
+       (map (fun kv => (fst kv, g kv)) kvs)
+  = option_map (fun kv => (fst kv, g kv))
+      (find (fun kv : atom * pv => match fst kv with AStr s => pystr_eqb s ITERABLE_OPCODES | _ => false end) kvs).
+Proof.
+  intros g. induction kvs as [|[a x] r IH]; [reflexivity|]. cbn [map find fst].
+  destruct (match a with AStr s => pystr_eqb s ITERABLE_OPCODES | _ => false end); [reflexivity | exact IH].
+Qed.
+
+(* replacing the raw opcodes entry by the rebuilt one restores the dict *)
+Lemma replace_ops_key : forall kvs,
+  forallb (fun kv => str_key (fst kv)) kvs = true -> nodup_atoms (map fst kvs) = true ->
+  forall a x, find (fun kv : atom * pv => is_ops_key (fst kv)) kvs = Some (a, x) ->
+  replace_key ITERABLE_OPCODES x (map (fun kv => (fst kv, raw_entry kv)) kvs) = kvs /\
+  (forall kv, In kv kvs -> is_ops_key (fst kv) = true -> kv = (a, x)).
+Proof.
+  induction kvs as [|[b y] r IH]; intros Hk Hnd a x Hf; [discriminate|].
+  cbn [forallb fst] in Hk. apply andb_true_iff in Hk. destruct Hk as [Kb Kr].
+  cbn [map fst nodup_atoms] in Hnd. apply andb_true_iff in Hnd. destruct Hnd as [Nb Nr].
+  destruct b; try discriminate. cbn [find fst is_ops_key] in Hf. cbn [map replace_key fst].
+  destruct (pystr_eqb s ITERABLE_OPCODES) eqn:E.
+  - inversion Hf; subst a x. clear Hf. apply pystr_eqb_eq in E. subst s.
+    assert (Hno : forall kv, In kv r -> is_ops_key (fst kv) = false).
+    { intros [c z] Hin. cbn [fst]. destruct c; try reflexivity. cbn [is_ops_key].
+      destruct (pystr_eqb s ITERABLE_OPCODES) eqn:E2; [|reflexivity]. apply pystr_eqb_eq in E2. subst s.
+      exfalso. apply negb_true_iff in Nb. unfold mem_atom in Nb.
+      assert (existsb (py_eq (AStr ITERABLE_OPCODES)) (map fst r) = true).
+      { apply existsb_exists. exists (AStr ITERABLE_OPCODES). split; [apply in_map_iff; exists (AStr ITERABLE_OPCODES, z); auto|].
+        rewrite py_eq_str. apply pystr_eqb_refl. }
+      congruence. }
+    split.
+    + f_equal. clear - Hno. induction r as [|[c z] r IH]; [reflexivity|]. cbn [map fst].
+      unfold raw_entry at 1. cbn [fst snd]. pose proof (Hno (c, z) (or_introl eq_refl)) as Hc. cbn [fst] in Hc. rewrite Hc.
+      rewrite IH; [reflexivity|]. intros kv Hin. apply Hno. right. exact Hin.
+    + intros kv [<-|Hin] Hkey; [reflexivity|]. rewrite (Hno kv Hin) in Hkey. discriminate.
+  - unfold raw_entry at 1. cbn [fst snd is_ops_key]. rewrite E.
+    destruct (IH Kr Nr a x Hf) as [IH1 IH2]. split.
+    + rewrite IH1. reflexivity.
+    + intros kv [<-|Hin] Hkey; [cbn [fst is_ops_key] in Hkey; congruence | apply IH2; assumption].
+Qed.
+
+Lemma json_roundtrip_ops : forall d, json_ok_ops d = true -> json_roundtrip d = Some d.
+Proof.
+  intros d H. destruct d; try discriminate. cbn [json_ok_ops] in H.
+  apply andb_true_iff in H. destruct H as [H Hv]. apply andb_true_iff in H. destruct H as [H Hb].
+  apply andb_true_iff in H. destruct H as [Hk Hnd]. apply negb_true_iff in Hb.
+  assert (HF : Forall (fun kv => exists j, to_json (snd kv) = Some j /\ of_json j = Some (raw_entry kv)) kvs).
+  { clear - Hv. induction kvs as [|[a x] r IH]; [constructor|].
+    cbn [forallb fst snd] in Hv. apply andb_true_iff in Hv. destruct Hv as [Hx Hr].
+    constructor; [|exact (IH Hr)]. unfold raw_entry. cbn [fst snd].
+    destruct (is_ops_key a); [exact (proj1 (paths_rt x Hx)) | exact (jfrag_rt x Hx)]. }
+  destruct (dict_rt_gen raw_entry kvs Hk Hnd Hb HF) as [j [T O]].
+  unfold json_roundtrip, json_load. rewrite T, O. unfold wrapper.
+  rewrite (find_ops_key raw_entry kvs).
+  destruct (find (fun kv : atom * pv => match fst kv with AStr s => pystr_eqb s ITERABLE_OPCODES | _ => false end) kvs)
+    as [[a x]|] eqn:Ef; cbn [option_map].
+  - (* the entry is there *)
+    change (fun kv : atom * pv => match fst kv with AStr s => pystr_eqb s ITERABLE_OPCODES | _ => false end)
+      with (fun kv : atom * pv => is_ops_key (fst kv)) in Ef.
+    destruct (replace_ops_key kvs Hk Hnd a x Ef) as [Hrep Hall].
+    assert (Hin : In (a, x) kvs /\ is_ops_key a = true).
+    { apply find_some in Ef. exact Ef. }
+    destruct Hin as [Hin Ha].
+    assert (Hx : ops_ok x = true).
+    { rewrite forallb_forall in Hv. specialize (Hv (a, x) Hin). cbn [fst snd] in Hv. rewrite Ha in Hv. exact Hv. }
+    assert (Era : raw_entry (a, x) = raw_paths x) by (unfold raw_entry; cbn [fst snd]; rewrite Ha; reflexivity).
+    cbn [fst snd]. rewrite !Era.
+    destruct (paths_rt x Hx) as [_ [Ht Hf]].
+    destruct (truthy (raw_paths x)) eqn:Et.
+    + rewrite (Ht eq_refl), Hrep. reflexivity.
+    + (* an empty opcodes dict is left alone; nothing was changed by the parse *)
+      f_equal. f_equal. rewrite <- (map_id kvs) at 2. apply map_ext_in. intros [c z] Hin2.
+      unfold raw_entry. cbn [fst snd]. destruct (is_ops_key c) eqn:Ec; [|reflexivity].
+      pose proof (Hall (c, z) Hin2 Ec) as Heq. inversion Heq; subst c z. rewrite (Hf eq_refl). reflexivity.
+  - (* no opcodes entry: every value parsed to itself *)
+    f_equal. f_equal.
+    assert (Hno : forall kv, In kv kvs -> is_ops_key (fst kv) = false).
+    { intros kv Hin. destruct (is_ops_key (fst kv)) eqn:E; [|reflexivity].
+      pose proof (find_none _ _ Ef kv Hin) as Hn. cbn beta in Hn. unfold is_ops_key in E. congruence. }
+    clear - Hno. induction kvs as [|[c z] r IH]; [reflexivity|]. cbn [map fst].
+    unfold raw_entry at 1. cbn [fst snd]. pose proof (Hno (c, z) (or_introl eq_refl)) as Hc. cbn [fst] in Hc. rewrite Hc.
+    rewrite IH; [reflexivity|]. intros kv Hin. apply Hno. right. exact Hin.
+Qed.
+
+(* on the JSON-representable fragment, Delta(json_dumps(payload), deserializer=json_loads).diff is the payload *)
+Theorem json_roundtrip_partial : forall d, json_ok d = true -> json_roundtrip d = Some d.
+Proof.
+  intros d H. unfold json_ok in H. apply orb_true_iff in H. destruct H as [H|H].
+  - apply json_roundtrip_plain. exact H.
+  - apply json_roundtrip_ops. exact H.
+Qed.
+
+(** * where the real code changes the payload *)
 Local Open Scope string_scope.
 
-(* K12: a delta with iterable opcodes, serialised to JSON, raises on load *)
+(* K12 (fixed in c7b983b): a delta with iterable opcodes, serialised to JSON, loads again and
+   carries the same payload - it is inside the fragment *)
 Definition opcode_payload : pv :=
   PDict [(AStr (s2p "_iterable_opcodes"),
           PDict [(AStr (s2p "root"),
                   PList [POpcode (s2p "insert") 0 0 0 2 (PAtom ANone) (PList [PAtom (AInt 9%Z); PAtom (AInt 8%Z)]);
                          POpcode (s2p "equal") 0 4 2 6 (PAtom ANone) (PAtom ANone)])])].
-Theorem json_opcode_refuted :
-  exists d j, wfp d = true /\ to_json d = Some j /\ json_load j = None.
-Proof. exists opcode_payload. eexists. split; [reflexivity|]. split; vm_compute; reflexivity. Qed.
+Example json_opcode_payload_ok : json_ok opcode_payload = true.
+Proof. vm_compute. reflexivity. Qed.
+Example json_opcode_roundtrip : json_roundtrip opcode_payload = Some opcode_payload.
+Proof. apply json_roundtrip_partial. exact json_opcode_payload_ok. Qed.
 
 (* a type change from / to None comes back with None instead of NoneType *)
 Definition nonetype_payload : pv :=
